@@ -12,7 +12,6 @@
 #define ENV_ASSUME(c) do { if (!(c)) abort(); } while (0)
 #endif
 struct env_str { u8 *p; u64 size; union { u64 cap; u8 buf[16]; } u; };
-u8 X_G___dso_handle;
 u32 X___cxa_atexit(u8 *f, u8 *a, u8 *d) { (void)f; (void)a; (void)d; return 0; }
 static int env_str_local(struct env_str *s) { return s->p == s->u.buf; }
 static u64 env_str_cap(struct env_str *s) { return env_str_local(s) ? 15 : s->u.cap; }
@@ -87,3 +86,12 @@ ENV_THROW(X__ZSt20__throw_system_errori(u32 e), "throws std::system_error (termi
 ENV_THROW(X__ZSt16__throw_bad_castv(void), "throws std::bad_cast (terminate)")
 ENV_THROW(X__ZSt9terminatev(void), "std::terminate")
 ENV_THROW(X__ZSt17__throw_bad_allocv(void), "throws std::bad_alloc")
+/* basic_string(basic_string&&) */
+void X__ZNSt7__cxx1112basic_stringIcSt11char_traitsIcESaIcEEC2EOS4_(u8 *self, u8 *other)
+{
+  struct env_str *s = (struct env_str *)self, *o = (struct env_str *)other;
+  if (env_str_local(o)) { s->p = s->u.buf; memcpy(s->u.buf, o->u.buf, 16); } else { s->p = o->p; s->u.cap = o->u.cap; }
+  s->size = o->size;
+  o->p = o->u.buf; o->size = 0; o->u.buf[0] = 0;
+}
+void X__ZNSt7__cxx1112basic_stringIcSt11char_traitsIcESaIcEEC1EOS4_(u8 *self, u8 *other) { X__ZNSt7__cxx1112basic_stringIcSt11char_traitsIcESaIcEEC2EOS4_(self, other); }
